@@ -2,7 +2,7 @@
    Local theorems (what one processed request / message does); convergence of the handshake and
    edge progress over the network model are explored in pipeline mode (C06_edge_progress_partial). *)
 From Coq Require Import ZArith List Bool Lia.
-From OF Require Import Base.Str Proto.Wire Proto.Receiver Proto.Receiver_Lemmas Proto.Receiver_Registered Proto.Sender Proto.Sender_Safety.
+From OF Require Import Base.Str Proto.Wire Proto.Receiver Proto.Receiver_Lemmas Proto.Receiver_Registered Proto.Sender Proto.Sender_Safety Proto.Sender_Progress.
 Import ListNotations.
 Open Scope Z_scope.
 
@@ -74,6 +74,30 @@ Theorem C06_no_lost_registration :
     registered s = false -> got_all s = true.
 Proof. exact receiver_no_lost_registration. Qed.
 Print Assumptions C06_no_lost_registration.
+
+(* the publisher keeps moving: the gate is also SUFFICIENT.  Once the request that was still missing has been processed
+   (every tracked, non-timed-out synchronized client has asked, every required output is connected) the gate is open ... *)
+Theorem C06_last_request_opens_gate :
+  forall s f o q s1 f1 o1 r,
+    on_request s f o q = (s1, f1, o1, r) -> s_balance s = false -> MSG_ID_SPECIAL < q_mid q ->
+    (has_client (q_cid q) (q_uid q) (clients s) = true \/ s_handshake s = false \/ q_new q = false) ->
+    (q_mid q < sf_msg_id f \/ q_eph q <> 0) ->
+    (forall r0, In r0 (s_required s) -> exists x, In x (put_client (req_client s o q) (clients s)) /\ c_cid x = r0) ->
+    (forall x, In x (put_client (req_client s o q) (clients s)) -> c_tlast x <? s_now s / 1000000 - CONN_TIMEOUT = false ->
+               c_eph x = 0 -> c_requested x = true) ->
+    sf_do_send f1 = true /\ r = PrTrue.
+Proof. exact on_request_opens. Qed.
+Print Assumptions C06_last_request_opens_gate.
+
+(* ... and an open gate publishes: the pending frame goes to every output under the id of the call and send() returns *)
+Theorem C06_open_gate_publishes :
+  forall s f tm,
+    s_balance s = false -> sf_do_send f = true -> clients s <> [] -> sf_topicmsgs f = Some tm ->
+    exists s1 f1 o1, send_maybe s f = (s1, f1, o1, Some true) /\
+                     In (SOPub (seq 0 (s_nout s)) (sf_msg_id f) (if sf_balanced f =? 0 then 0 else sf_balanced f + 1) (map fst tm) tm) o1 /\
+                     min_send_id s1 = sf_msg_id f + 1.
+Proof. exact open_gate_publishes. Qed.
+Print Assumptions C06_open_gate_publishes.
 
 (* Non-vacuity: client 1 asks for id 7 of a freshly started publisher (min_send_id 0): id 8 is adopted. *)
 Theorem C06_nonvacuous :
